@@ -267,6 +267,12 @@ def expr(n, env, want=None):
                 return "(%s %s)" % (HAS[(ty, const_str(l))], lv(r.id, r)), "bool"
             bad(n, "`%r in` a %s" % (const_str(l), ty))
         bad(n, "comparison")
+    if isinstance(n, ast.BinOp) and isinstance(n.op, (ast.Add, ast.Sub)):
+        # index arithmetic on Opcode positions (natural numbers; Python's negative results are not modelled: truncated subtraction)
+        lt, lty = expr(n.left, env)
+        if lty == "nat" and isinstance(n.right, ast.Constant) and type(n.right.value) is int and 0 <= n.right.value < 10:
+            return "(%s %s %d)" % (lt, "+" if isinstance(n.op, ast.Add) else "-", n.right.value), "nat"
+        bad(n, "arithmetic on a %s" % lty)
     if isinstance(n, ast.IfExp):
         c = cond(n.test, env)
         a, at = expr(n.body, env, want)
